@@ -1065,6 +1065,41 @@ fn retained_messages_follow_the_rules() {
     report(name, "C15", "all 216 scripts of 3 retained / plain / clearing / plain-with-empty-payload publishes on 2 topics x 4 filters x QoS 0/1; re-subscribe and shared subscribe afterwards", cases, fail);
 }
 
+/// C15: a retained publish that is accepted after the SUBSCRIBE but before the router first serves the new subscription.
+/// On the pinned tree it is delivered twice (the log cursor is taken at SUBSCRIBE time, the retained set is read at the
+/// first consume): recorded as a KNOWN FINDING, kept as its own obligation.
+// @native props=C15 tier=quick fn=Router::{prepare_filter,forward_device_data} (retained snapshot vs. log cursor)
+#[test]
+fn retained_publish_racing_a_new_subscription_is_delivered_once() {
+    let name = "rumqttd::Router::forward_device_data#retained_publish_between_subscribe_and_first_consume";
+    let mut cases = 0u64;
+    let mut fail: Option<String> = None;
+    'outer: for q in 0..2u8 {
+        for same_client in [true, false] {
+            cases += 1;
+            let desc = format!("SUBSCRIBE r/t (QoS {}) and a retained PUBLISH on r/t {} reach the router before it serves the subscription", q, if same_client { "in one batch of the same client" } else { "as two events of two clients" });
+            let mut r = new_router();
+            let s1 = connect(&mut r, "s", true).unwrap();
+            let p = connect(&mut r, "p", true).unwrap();
+            if same_client {
+                send(&mut r, &s1, vec![subscribe(1, &[("r/t", q)]), publish("r/t", 0, 0, "r1", true)]);
+            } else {
+                s1.ibuf.lock().push_back(subscribe(1, &[("r/t", q)]));
+                p.ibuf.lock().push_back(publish("r/t", 0, 0, "r1", true));
+                r.events(s1.id, Event::DeviceData);
+                r.events(p.id, Event::DeviceData);
+                settle(&mut r);
+            }
+            let got = receive_all(&mut r, &s1);
+            if got.len() != 1 {
+                fail = Some(format!("input=[{}] detail=[the subscriber received {:?}: the one message {} times]", desc, got, got.len()));
+                break 'outer;
+            }
+        }
+    }
+    report(name, "C15", "QoS 0/1 x same client in one batch / two clients in one router round", cases, fail);
+}
+
 // ---------------------------------------------------------------------------------------------
 // C17: shared subscriptions
 // ---------------------------------------------------------------------------------------------
